@@ -57,6 +57,7 @@ type config struct {
 	cb     bool // callback registered
 	depth  int
 	same   bool // alphabet additionally holds StoreSame(k): the value stored is constant per key
+	cbPanic bool // the removal callback panics for key "b" (after logging); every operation is wrapped in recover
 	exotic bool // the keys are unusual but legal map keys: nil, 0, "", struct{}{}, 1.5 (any comparable value is a key)
 }
 
@@ -87,6 +88,9 @@ func (cf config) String() string {
 	if cf.same {
 		return fmt.Sprintf("cap=%d warm=%d prefill=%d cb=%v depth=%d +StoreSame", cf.cap, cf.warm, cf.prefil, cf.cb, cf.depth)
 	}
+	if cf.cbPanic {
+		return fmt.Sprintf("cap=%d warm=%d prefill=%d cb=panics-for-b depth=%d", cf.cap, cf.warm, cf.prefil, cf.depth)
+	}
 	if cf.exotic {
 		return fmt.Sprintf("cap=%d warm=%d prefill=%d cb=%v depth=%d keys=nil,0,\"\",struct{}{},1.5", cf.cap, cf.warm, cf.prefil, cf.cb, cf.depth)
 	}
@@ -103,7 +107,22 @@ func runSeq(cf config, ops []op, seq []int, c *runner.Ctx) (sig, detail string, 
 	lru := valid.NewLRU(cf.cap)
 	var log []cbrec
 	if cf.cb {
-		lru.SetDelCallBackFn(func(k, v interface{}) { log = append(log, cbrec{cf.label(k), v}) })
+		lru.SetDelCallBackFn(func(k, v interface{}) {
+			log = append(log, cbrec{cf.label(k), v})
+			if cf.cbPanic && cf.label(k) == "b" {
+				panic("callback refuses b")
+			}
+		})
+	}
+	// a panicking callback is the caller's problem, but the cache stays a bounded LRU map: the entry is gone, the
+	// callback was invoked once, later operations work
+	guard := func(f func()) {
+		if !cf.cbPanic {
+			f()
+			return
+		}
+		defer func() { recover() }()
+		f()
 	}
 	m := lrumodel.New(cf.cap)
 	step := 0
@@ -147,7 +166,7 @@ func runSeq(cf config, ops []op, seq []int, c *runner.Ctx) (sig, detail string, 
 		calls++
 		switch o.kind {
 		case 'S':
-			lru.Store(cf.rk(o.key), step)
+			guard(func() { lru.Store(cf.rk(o.key), step) })
 			m.Store(o.key, step)
 			trace = append(trace, o.String())
 		case 'T':
@@ -169,7 +188,7 @@ func runSeq(cf config, ops []op, seq []int, c *runner.Ctx) (sig, detail string, 
 				return "load-stale-value", fmt.Sprintf("%v: got %v model %v", trace, v, mv), calls, false
 			}
 		case 'D':
-			lru.Delete(cf.rk(o.key))
+			guard(func() { lru.Delete(cf.rk(o.key)) })
 			m.Delete(o.key)
 			trace = append(trace, o.String())
 		case 'N':
@@ -227,7 +246,7 @@ func runSeq(cf config, ops []op, seq []int, c *runner.Ctx) (sig, detail string, 
 	for i := 0; i <= cf.cap; i++ {
 		k := fmt.Sprintf("z%d", i)
 		step++
-		lru.Store(k, step)
+		guard(func() { lru.Store(k, step) })
 		m.Store(k, step)
 		calls++
 	}
@@ -423,6 +442,14 @@ func run(c *runner.Ctx) {
 		}
 		cfgs = append(cfgs, config{cap: cp, cb: true, depth: d, same: true}, config{cap: cp, prefil: cp, cb: true, depth: d - 1, same: true})
 	}
+	// a removal callback that panics for one key (operations recovered by the caller)
+	for cp := 0; cp <= 2; cp++ {
+		d := 5
+		if c.Thorough() {
+			d = 6
+		}
+		cfgs = append(cfgs, config{cap: cp, cb: true, depth: d, cbPanic: true}, config{cap: cp, prefil: cp, warm: 2*cp + 1, cb: true, depth: d - 1, cbPanic: true})
+	}
 	// unusual keys
 	for cp := 1; cp <= 3; cp++ {
 		d := 5
@@ -484,7 +511,7 @@ func main() {
 	runner.Main(runner.Config{
 		Property:  "C09",
 		Technique: "explicit-state bounded-exhaustive exploration of all operation sequences on the real LRUCache, lock-step against a reference model",
-		Rule: "all sequences of length d over {Store (fresh value = step number),Load,Delete}(k in c+1 colliding keys)+Len on valid.NewLRU(c), c=0..4 (+8), and for c=1..3 additionally StoreSame(k) (a value that is constant per key, so re-storing an equal value is covered) and a key alphabet of unusual keys (nil, 0, \"\", struct{}{}, 1.5), from empty, pre-filled and warm-up states around the map-rebuild threshold, plus 105 structured long runs (thousands of operations, capacities 16, 64 and the package default 512) crossing the rebuild threshold several times, " +
+		Rule: "all sequences of length d over {Store (fresh value = step number),Load,Delete}(k in c+1 colliding keys)+Len on valid.NewLRU(c), c=0..4 (+8), and for c=1..3 additionally StoreSame(k) (a value that is constant per key, so re-storing an equal value is covered) a removal callback that panics for one key (operations recovered), and a key alphabet of unusual keys (nil, 0, \"\", struct{}{}, 1.5), from empty, pre-filled and warm-up states around the map-rebuild threshold, plus 105 structured long runs (thousands of operations, capacities 16, 64 and the package default 512) crossing the rebuild threshold several times, " +
 			"with and without removal callback; every step compared with a slice-based LRU model; non-trivial = sequences containing an eviction whose victim differs between LRU and FIFO order",
 		Assumptions: []string{"reference model internal/lrumodel is the specification of C09", "keys are hashable strings; callbacks do not re-enter the cache"},
 		Run:         run,
